@@ -1076,6 +1076,8 @@ class Gen:
             fam_a, prof_a, base_a = ANCHORS[idx % len(ANCHORS)]
             d_a = self.make_data(dict(base_a), slot=N_DATA_SLOTS - 1)
             m_a = self.fit(fam_a, d_a, profile=prof_a, ignore=True, mslot=N_MODEL_SLOTS - 1, allow_abort=False)
+            # ... and the same key by a fresh object in the process image taken before the run did anything
+            self.events[-1]["args"]["vs_fresh"] = True
             rep_a = {k: v for k, v in base_a.items() if k != "role"}
             rep_a.update(role="reporting", span="partial" if base_a.get("src") == "sample" else "month", obs="present", tgap=0)
             r_a = self.make_data(rep_a, slot=N_DATA_SLOTS - 2)
